@@ -43,13 +43,13 @@ def run(ctx):
     jobs = [("tree model, menus without wrong-side/oversize rows, all C06 invariants",
              dict(depth=ctx.pick(9, 12), edit=1, invariants=K.INV_C06)),
             ("repaired model (reduce-only replacement, clamped reduce-only fills), full menus, all C06 invariants",
-             dict(depth=ctx.pick(8, 10), multi=True, partial=True, wrong=True, edit=ctx.pick(1, 2), maxord=8, rrepl=True, rclamp=True,
+             dict(depth=ctx.pick(8, 10), multi=True, oversize=True, wrong=True, edit=ctx.pick(1, 2), maxord=8, rrepl=True, rclamp=True,
                   invariants=K.INV_C06)),
             # expected counter-examples of the tree model; each is replayed into the real code below
             ("tree model, oversize reduce-only stop after a partial take-profit: TradeFaithful",
-             dict(depth=8, multi=True, partial=True, edit=0, maxord=8, invariants=["TradeFaithful"])),
+             dict(depth=8, multi=True, oversize=True, edit=0, maxord=8, invariants=["TradeFaithful"])),
             ("tree model, oversize reduce-only stop after a partial take-profit: WalletIdentity",
-             dict(depth=8, multi=True, partial=True, edit=0, maxord=8, invariants=["WalletIdentity"])),
+             dict(depth=8, multi=True, oversize=True, edit=0, maxord=8, invariants=["WalletIdentity"])),
             ("tree model, wrong-side oversize rows (flip): HooksFaithful",
              dict(depth=8, multi=True, wrong=True, edit=0, maxord=8, invariants=["HooksFaithful"])),
             ("tree model, wrong-side oversize rows (flip): NoLivelock",
@@ -68,6 +68,9 @@ def run(ctx):
     never = [a for a, (d, g) in rs[0].coverage.items() if g == 0 and a in ("Move", "Fill", "StepA", "StepB", "FlushOne", "Term1", "Term2", "Term3")]
     if never:
         raise Machinery("vacuity: actions never taken in the clean instance: %s" % never)
+    wit = K.witnesses(ctx, K.WIT_C06, **{k: v for k, v in jobs[0][1].items() if k != "invariants"})
+    wit.update(K.witnesses(ctx, K.WIT_C06_REPAIRED, **{k: v for k, v in jobs[1][1].items() if k != "invariants"}))
+    ctx.coverage["non_vacuity_witnesses_shortest_history"] = wit
     # ---------------------------------------------------------------- R
     items = [{"id": 100000 + j, "hist": h, "B": K.BASE, "src": "counter-example to %s" % inv, "compare": False}
              for j, (lab, inv, h) in enumerate(cex)]
